@@ -187,6 +187,31 @@ class Seconds(Harness):
         k = len([x for x in inputs if re.match(r'^f\d+$', x)])
         return chr(int(inputs['s0'])) + chr(int(inputs['s1'])) + '.' + ''.join(chr(int(inputs['f%d' % i])) for i in range(k))
 
+    _hard = {}
+
+    @classmethod
+    def hard_fraction(cls, k):
+        """a k-digit decimal fraction whose nearest double times 1e9, truncated, is not the exact count of nanoseconds
+        (found by trying candidates with Python's doubles): steers counterexamples of float-based scaling to one that is real"""
+        if k not in cls._hard:
+            found = None
+            for n in range(1, min(10 ** k, 200000)):
+                ds = str(n).rjust(k, '0')
+                if int(float('0.' + ds) * 1e9) != n * 10 ** (9 - k):
+                    found = ds
+                    break
+            cls._hard[k] = found
+        return cls._hard[k]
+
+    def prefer(self, ctx):
+        k = ctx['k']
+        out = []
+        ds = self.hard_fraction(k) if k <= 9 else None
+        if ds:
+            val_ = int(ds)
+            out.append(ctx['fv'] == val_)
+        return out
+
     def native(self, inputs, label):
         t = self._text(inputs)
         ss, _, ff = t.partition('.')
